@@ -121,3 +121,20 @@ R.consts["HANDLER_FRAME"] = dict(
         "QuicStreamSender.on_data_delivery": (["AssertionError"], "AssertionError only when fin is registered with a stop that is not the stream's final offset (the STREAM frame writer registers (frame.offset, frame.offset + len(frame.data), frame.fin) of the frame get_frame returned)"),
     },
 )
+
+
+# ---------------------------------------------------------------------------------------------- initial state of a packet space
+# REC_INIT, packet-space half (was assumed): a new QuicPacketSpace tracks nothing, so its ledger terms are zero and space_ok
+# holds - the base case of the induction over the call history for C08 (c)/(f).  (QuicPacketRecovery.__init__ itself stays
+# outside: create_congestion_control goes through a module-level factory dict.)
+# (a contract VARIANT: the plain key is declared `inline` in quic_noraise.py - callers execute the constructor body)
+R.contract(
+    "QuicPacketSpace.__init__#init_state",
+    ensures=[
+        "forall(lambda pn: pn not in self.sent_packets)",
+        "self.ack_eliciting_in_flight == 0 and self.g_flight == 0 and self.g_ae == 0",
+        "space_ok(self)",
+        "self.loss_time is None and self.largest_acked_packet == 0 and not self.discarded",
+    ],
+    prop=["C08"],
+)
